@@ -347,7 +347,7 @@ class Contract:
     def __init__(self, target, args=None, requires=(), ensures=None, raises=(), modifies=(), returns=None, pure=False,
                  inline=False, invariants=None, trusted=False, prop=None, setup=None, ghost=None, varargs=None,
                  raises_ensures=None, note="", abstract_only=False, result_name=None, unroll=None, kind="function",
-                 concretize=None, native_setup=None, max_paths=None, bounded_note=None, effects=None, yield_effect=None, call_ensures=None, replay_real=False, replayable=True, ghost_init=None, yield_interference=None):
+                 concretize=None, native_setup=None, max_paths=None, bounded_note=None, effects=None, yield_effect=None, call_ensures=None, replay_real=False, replayable=True, ghost_init=None, yield_interference=None, abstract_callees=None):
         self.target = target
         self.args = args or {}
         self.requires = list(requires)
@@ -381,6 +381,7 @@ class Contract:
         # what the CONSUMER of the generator may do while it holds an event (between a `yield` and the statement after it): {path: "set"} = a boolean flag that it
         # may set (never clear) - e.g. EventStream.stop() called from an event handler
         self.yield_interference = dict(yield_interference or {})
+        self.abstract_callees = list(abstract_callees or [])  # callees taken by their contract in THIS verification although they are marked inline (verified on their own)
 
 
 class Lemma:
